@@ -20,7 +20,7 @@ DEFAULT_CFG = {
     'four_bytes_as': True, 'route_refresh': True, 'cisco_route_refresh': True,
     'enhanced_route_refresh': True, 'graceful_restart': True, 'cisco_multi_session': True,
     'add_path': None, 'afi_safi': ['ipv4'], 'rib': False, 'md5': None, 'setsockopt_fails': False,
-    'peer_id': 0x0A000002, 'debug_log': False,
+    'peer_id': 0x0A000002, 'debug_log': False, 'gethost_fails': 0,
     'username': 'admin', 'password': 'admin',
 }
 
@@ -172,6 +172,7 @@ class AgentWorld(object):
         set_debug_logging(c['debug_log'])
         random.seed(0)          # the agent does not use randomness today; a change that starts to must not make runs differ
         self.sim = sim.World(local_host=c['local_addr'])
+        self.sim.gethost_failures = c['gethost_fails']
         CLOCK.world = self.sim
         install_time_seam()
         self.history = []
